@@ -80,10 +80,12 @@ theorem PollStruct.frame {s t : State} (f : Frame s t) (h : PollStruct s) : Poll
 
 theorem pollUpdate_new {s : State} {c : Nat} (hi : (s.chans c).index < 0) (hc : s.cmap (fdOf c) = none) :
     pollUpdate s c = { s with
-        pollfds := s.pollfds ++ [(fdOf c, (s.chans c).events)]
+        pollfds := s.pollfds ++ [entryOf (s.chans c).events c]
         chans := fun x => if x = c then { s.chans c with index := (s.pollfds.length : Int) } else s.chans x
         cmap := fun x => if x = fdOf c then some c else s.cmap x } := by
-  simp [pollUpdate, pollIsNew, hi, hc]
+  simp only [pollUpdate, pollIsNew, hi, hc, if_true, ne_eq, not_true_eq_false, if_false, entryOf, pollNewIgnores,
+    pollNewIgnoreFd, pollIgnoreFd, isNoneEvent, kNoneEvent]
+  congr
 
 theorem pollUpdate_old {s : State} {c : Nat} (hi : 0 ≤ (s.chans c).index) (hc : s.cmap (fdOf c) = some c)
     {pfd : Int × Nat} (hp : s.pollfds[(s.chans c).index.toNat]? = some pfd)
@@ -97,16 +99,10 @@ theorem pollUpdate_old {s : State} {c : Nat} (hi : 0 ≤ (s.chans c).index) (hc 
   congr
 
 
-theorem blindUpdate_false {s : State} {c : Nat} {k : OpKind} (hb : blindUpdate s c k = false)
-    (ha : (s.chans c).added = false) : newEvents k (s.chans c).events ≠ 0 := by
-  intro h0
-  simp [blindUpdate, ha, isNoneEvent, kNoneEvent, h0] at hb
-
 theorem pollStruct_update_new {s : State} (h : PollStruct s) (c : Nat) (k : OpKind)
-    (hb : blindUpdate s c k = false) (ha : (s.chans c).added = false) :
+    (ha : (s.chans c).added = false) :
     PollStruct (pollUpdate (setInterest s c k) c) ∧ (pollUpdate (setInterest s c k) c).dead = s.dead ∧
       (pollUpdate (setInterest s c k) c).out = s.out := by
-  have hne := blindUpdate_false hb ha
   obtain ⟨hi, _, hc⟩ := h.unreg c ha
   have hi' : ((setInterest s c k).chans c).index < 0 := by simpa [setInterest] using hi
   have hc' : (setInterest s c k).cmap (fdOf c) = none := by simpa [setInterest] using hc
@@ -115,7 +111,7 @@ theorem pollStruct_update_new {s : State} (h : PollStruct s) (c : Nat) (k : OpKi
   · intro d hd
     by_cases hdc : d = c
     · subst hdc
-      simp [setInterest, entryOf, hne]
+      simp [setInterest]
     · simp only [setInterest, hdc, if_false] at hd ⊢
       obtain ⟨h1, h2, h3⟩ := h.reg d hd
       have hfd : fdOf d ≠ fdOf c := fun e => hdc (fdOf_inj e)
@@ -353,13 +349,8 @@ theorem PollStruct.afterReport {s : State} (h : PollStruct s) (c k) : PollStruct
 theorem report_dead (s : State) (c k) : (report s c k).dead = s.dead := by
   unfold report; split <;> rfl
 
-theorem report_blind (s : State) (c k) : (report s c k).blind = s.blind := by
-  unfold report; split <;> rfl
-
-/-- on a poll loop every operation keeps the slot invariant, fails no assertion and logs no failure,
-unless it is the first update of an unregistered channel and carries no interest (finding F21) -/
-theorem pollStruct_applyOp {s : State} (hbe : s.be = .poll) (h : PollStruct s) (c : Nat) (k : OpKind)
-    (hb : (applyOp s c k).blind = false) :
+/-- on a poll loop every operation keeps the slot invariant, fails no assertion and logs no failure -/
+theorem pollStruct_applyOp {s : State} (hbe : s.be = .poll) (h : PollStruct s) (c : Nat) (k : OpKind) :
     PollStruct (applyOp s c k) ∧ (applyOp s c k).dead = s.dead ∧
       ∃ l, (applyOp s c k).out = s.out ++ l ∧ ∀ e ∈ l, e.isFailure = false := by
   have hrep : ∀ t : State, PollStruct t → t.dead = s.dead → t.out = s.out →
@@ -378,15 +369,12 @@ theorem pollStruct_applyOp {s : State} (hbe : s.be = .poll) (h : PollStruct s) (
     by_cases hacc : accepts s c k
     · cases hk : k.isUpdate with
       | true =>
-        rw [applyOp_update hd hk] at hb ⊢
+        rw [applyOp_update hd hk]
         have hbe' : (setInterest s c k).be = .poll := hbe
-        simp only [updateChannel, hbe'] at hb ⊢
-        rw [report_blind, (backStep_pollUpdate _ c).blind] at hb
-        have hb2 : blindUpdate s c k = false := by
-          simp only [setInterest, Bool.or_eq_false_iff] at hb; exact hb.2
+        simp only [updateChannel, hbe']
         cases ha : (s.chans c).added with
         | false =>
-          obtain ⟨h1, h2, h3⟩ := pollStruct_update_new h c k hb2 ha
+          obtain ⟨h1, h2, h3⟩ := pollStruct_update_new h c k ha
           have := hrep _ h1 h2 h3
           rw [hd] at this; exact this
         | true =>
@@ -483,49 +471,43 @@ theorem pollFill_alive (ready : List (Nat × Nat)) :
 
 /-! ### the invariant of a poll loop along every history -/
 
-/-- unless some channel was registered without interest (finding F21), a poll loop is alive and its
-slot invariant holds -/
-def PollGood (s : State) : Prop := s.be = .poll ∧ (s.blind = false → s.dead = false ∧ PollStruct s)
+/-- a poll loop is alive and its slot invariant holds -/
+def PollGood (s : State) : Prop := s.be = .poll ∧ s.dead = false ∧ PollStruct s
 
 theorem pollStruct_empty : PollStruct (empty .poll) :=
   ⟨fun c h => by simp [empty] at h, fun c _ => by simp [empty], fun fd m h => by simp [empty] at h,
     fun i h => by simp [empty] at h⟩
 
 theorem pollGood_applyOp (s : State) (c k) (h : PollGood s) : PollGood (applyOp s c k) := by
-  refine ⟨(applyOp_be s c k).trans h.1, fun hb => ?_⟩
-  obtain ⟨hd, hs⟩ := h.2 (applyOp_blind_mono s c k hb)
-  obtain ⟨h1, h2, _⟩ := pollStruct_applyOp h.1 hs c k hb
-  exact ⟨h2.trans hd, h1⟩
+  obtain ⟨h1, h2, _⟩ := pollStruct_applyOp h.1 h.2.2 c k
+  exact ⟨(applyOp_be s c k).trans h.1, h2.trans h.2.1, h1⟩
 
 theorem pollGood_quiet (s t : State) (q : Quiet s t) (h : PollGood s) : PollGood t := by
   obtain ⟨hh, c, rfl⟩ := q
-  exact ⟨h.1, fun hb => ⟨(h.2 hb).1, (h.2 hb).2.congr rfl rfl (fun _ => rfl) (fun _ => rfl) (fun _ => rfl)⟩⟩
+  exact ⟨h.1, h.2.1, h.2.2.congr rfl rfl (fun _ => rfl) (fun _ => rfl) (fun _ => rfl)⟩
 
 theorem pollGood_cb (s t : State) (q : CbStep s t) (h : PollGood s) : PollGood t := by
   obtain ⟨c, k, _, _, _, rfl⟩ := q
-  exact ⟨h.1, fun hb => ⟨(h.2 hb).1, (h.2 hb).2.congr rfl rfl (fun _ => rfl) (fun _ => rfl) (fun _ => rfl)⟩⟩
+  exact ⟨h.1, h.2.1, h.2.2.congr rfl rfl (fun _ => rfl) (fun _ => rfl) (fun _ => rfl)⟩
 
 theorem pollGood_book (s : State) (it act hh c) (h : PollGood s) :
     PollGood { s with iteration := it, active := act, handling := hh, cur := c } :=
-  ⟨h.1, fun hb => ⟨(h.2 hb).1, (h.2 hb).2.congr rfl rfl (fun _ => rfl) (fun _ => rfl) (fun _ => rfl)⟩⟩
+  ⟨h.1, h.2.1, h.2.2.congr rfl rfl (fun _ => rfl) (fun _ => rfl) (fun _ => rfl)⟩
 
 theorem pollGood_poll (s : State) (ready nret) (h : PollGood s) : PollGood (pollerPoll s ready nret).1 := by
   have f := frame_pollerPoll s ready nret
-  refine ⟨f.be.trans h.1, fun hb => ?_⟩
-  rw [f.blind] at hb
-  obtain ⟨hd, hs⟩ := h.2 hb
-  refine ⟨?_, hs.frame f⟩
+  refine ⟨f.be.trans h.1, ?_, h.2.2.frame f⟩
   unfold pollerPoll
   rw [h.1]
   simp only
   split
-  · exact pollFill_alive ready _ _ _ _ (hs.frame (frame_wait s _)) (fun p hp => hp) hd
-  · exact hd
+  · exact pollFill_alive ready _ _ _ _ (h.2.2.frame (frame_wait s _)) (fun p hp => hp) h.2.1
+  · exact h.2.1
 
 theorem pollGood_init : PollGood (init .poll) := by
-  have h0 : PollGood (empty .poll) := ⟨rfl, fun _ => ⟨rfl, pollStruct_empty⟩⟩
+  have h0 : PollGood (empty .poll) := ⟨rfl, rfl, pollStruct_empty⟩
   have h2 := pollGood_applyOp _ wakeChan .enableR (pollGood_applyOp _ timerChan .enableR h0)
-  exact ⟨h2.1, fun hb => ⟨(h2.2 hb).1, (h2.2 hb).2.congr rfl rfl (fun _ => rfl) (fun _ => rfl) (fun _ => rfl)⟩⟩
+  exact ⟨h2.1, h2.2.1, h2.2.2.congr rfl rfl (fun _ => rfl) (fun _ => rfl) (fun _ => rfl)⟩
 
 theorem pollGood_run (ins : List In) : PollGood (run (init .poll) ins) := by
   have hA : Along (fun _ _ => True) (init .poll) ins := by
@@ -535,7 +517,6 @@ theorem pollGood_run (ins : List In) : PollGood (run (init .poll) ins) := by
     | cons i r ih => exact ⟨trivial, ih _⟩
   exact run_induction (Q := fun _ _ => True) pollGood_applyOp pollGood_quiet pollGood_cb
     (fun s ready nret h _ _ => pollGood_poll s ready nret h) pollGood_book ins _ pollGood_init hA
-
 
 /-! ### refinement: the non-negative `pollfds_` entries are the specification map -/
 
